@@ -290,14 +290,21 @@ def unit_c08_unserialisable(args):
             J = ns.json_mod
             if mode.startswith("plain"):
                 J.JSONDict.disable_multithreading()
-            x = J.JSONDict(filename=p, write_concern=(mode == "write_concern"))
+            x = J.JSONDict(filename=p, write_concern=(mode.split("+")[0] == "write_concern"))
             x()                                   # load
-            x._data["bad"] = object()             # not serialisable
+            awkward = mode.endswith("+awkward")
+            if not awkward:
+                x._data["bad"] = object()         # not serialisable
             tr = crash.Tracer()
             tr.install()
             err = None
             try:
-                x._save()
+                if awkward:
+                    # valid JSON text that encoders tend to trip over: unpaired surrogates, control
+                    # characters, U+2028, an integer of 5000 digits is NOT included (int->str limit)
+                    x["awk"] = ["\ud83d tail \udead", "\u2028\x00\x1f", {"\ud800": 2 ** 200}]
+                else:
+                    x._save()
             except Exception as e:  # noqa: BLE001
                 err = type(e).__name__
             tr.active = False
@@ -312,7 +319,23 @@ def unit_c08_unserialisable(args):
         muts = [l for l in r["lines"] if l != "encode"]
         with open(p, "rb") as f:
             now = f.read()
-        if r["err"] is None:
+        if mode.endswith("+awkward"):
+            want = dict(old, awk=["\ud83d tail \udead", "\u2028\x00\x1f", {"\ud800": 2 ** 200}])
+            if r["err"] is None:
+                try:
+                    ok = json.loads(now) == want
+                except Exception:  # noqa: BLE001
+                    ok = False
+                if not ok:
+                    res["violations"].append(dict(props=["C08", "C12"], msg="a save of valid JSON data with unpaired surrogates / control characters returned but the file holds %r (%s mode)" % (now[:80], mode),
+                                                  fam="json", kind="c08u", ops=None, extra=dict(mode=mode)))
+            elif now != json.dumps(old).encode():
+                res["violations"].append(dict(props=["C08"], msg="a save that raised %s (valid JSON data with unpaired surrogates) damaged the file in %s mode: file now %r" % (r["err"], mode, now[:60]),
+                                              fam="json", kind="c08u", ops=None, extra=dict(mode=mode)))
+            else:
+                res["violations"].append(dict(props=["C12"], msg="valid JSON data with unpaired surrogates was rejected with %s (%s mode)" % (r["err"], mode),
+                                              fam="json", kind="c08u", ops=None, extra=dict(mode=mode)))
+        elif r["err"] is None:
             res["violations"].append(dict(props=["C08"], msg="saving unserialisable content did not raise (%s mode)" % mode, fam="json", kind="c08u", ops=None, extra=dict(mode=mode)))
         elif muts or now != json.dumps(old).encode():
             res["violations"].append(dict(props=["C08"], msg="unserialisable content damaged the file in %s mode: file operations %s, file now %r" % (mode, muts, now[:60]),
